@@ -579,7 +579,7 @@ class Scheduler:
                 return None
             p = G.pick(r, ps)
             scal = [q for q in ps if sp.sym(q).get("grid", "") == "" and sp.sym(q).get("rows", 1) * sp.sym(q).get("cols", 1) == 1 and sp.T != ["par", q]]
-            if len(scal) >= 2 and r.random() < 0.2:
+            if len(scal) >= 2 and r.random() < 0.4:
                 # documented form: a simple concatenation of parameters with a stacked value
                 two = r.sample(scal, 2)
                 return {"op": "set_value_cat", "a": a, "ps": two, "v": [G.rnum(r), G.rnum(r)]}
@@ -590,7 +590,16 @@ class Scheduler:
             if not tg:
                 return None
             t, s = G.pick(r, tg)
-            return {"op": "set_initial", "a": a, "x": t, "g": G.gen_guess(r, t, s, N, cfg)}
+            # placed, not uniform: a new guess for a free horizon matters most when time-dependent guesses exist,
+            # and a time-dependent guess matters most when the horizon is free
+            hz = [x for x in tg if x[1] is None]
+            if hz and any(g[0] == "expr" for _, g in sp.initial) and r.random() < 0.5:
+                t, s = G.pick(r, hz)
+            g = G.gen_guess(r, t, s, N, cfg)
+            if hz and s is not None and s["kind"] in ("state", "control") and r.random() < 0.3:
+                rows = s.get("rows", 1) * s.get("cols", 1)
+                g = ["expr", G.gen_time_expr(r)] if rows == 1 else ["expr", ["vec"] + [G.gen_time_expr(r) for _ in range(rows)]]
+            return {"op": "set_initial", "a": a, "x": t, "g": g}
         if k == "redeclare":
             # the model of one state is declared again (same shape), as users do when tuning a model between solves
             xs = sp.names("state")
